@@ -54,40 +54,40 @@ theorem fresh_inv {c : Chan} {ts : TS} {npre nsamp f0 : Int} (sg : Bool) (hv : 3
 
 /-- **No pulse lost (edge), from the first block after a start.**  `c` is the channel as
 `PrepareRun` leaves it; the blocks `segs` have any lengths. -/
-theorem C02_edge_complete {c c' : Chan} {ts : TS} {npre nsamp f0 per : Int} {sg : Bool} {zt : ZT}
+theorem C02_edge_complete {c c' : Chan} {ts : TS} {npre nsamp f0 : Int} {tp : Nat → Int × Int} {n : Nat} {sg : Bool} {zt : ZT}
     (hv : 3 ≤ npre ∧ npre < nsamp) (hem : ts.edgeMulti = false) (hedge : ts.edge = true)
     (hfresh : Fresh c ts npre nsamp f0) (segs : List (List Nat)) {tr : List Int}
-    (hrun : runChan zt per sg c f0 segs = some (c', tr)) :
+    (hrun : runChan zt tp sg n c f0 segs = some (c', tr)) :
     ∀ p : Int, npre ≤ p → p + (nsamp - npre) < (segs.flatten.length : Int) →
       edgeAtG (cfgChan ts sg) segs.flatten p = true → Cov nsamp f0 tr p := by
   have h0 := fresh_inv sg hv hfresh
-  obtain ⟨k', hinv⟩ := runChan_inv hv hem hedge segs [] c [] 0 c' tr h0 (by simpa using hrun)
+  obtain ⟨k', hinv⟩ := runChan_inv hv hem hedge segs n [] c [] 0 c' tr h0 (by simpa using hrun)
   rw [List.nil_append, List.nil_append] at hinv
   intro p h1 h2 h3
   exact hinv.covered p (by simpa using h1) (by omega) h3
 
 /-- edge-only: **no pulse invented** — every trigger frame satisfies the edge criterion -/
-theorem C02_edge_only_sound {c c' : Chan} {ts : TS} {npre nsamp f0 per : Int} {sg : Bool} {zt : ZT}
+theorem C02_edge_only_sound {c c' : Chan} {ts : TS} {npre nsamp f0 : Int} {tp : Nat → Int × Int} {n : Nat} {sg : Bool} {zt : ZT}
     (hv : 3 ≤ npre ∧ npre < nsamp) (hem : ts.edgeMulti = false) (hedge : ts.edge = true)
     (hl : ts.level = false) (ha : ts.auto = false)
     (hfresh : Fresh c ts npre nsamp f0) (segs : List (List Nat)) {tr : List Int}
-    (hrun : runChan zt per sg c f0 segs = some (c', tr)) :
+    (hrun : runChan zt tp sg n c f0 segs = some (c', tr)) :
     ∀ T ∈ tr, edgeAtG (cfgChan ts sg) segs.flatten (T - f0) = true := by
   have h0 := fresh_inv sg hv hfresh
-  obtain ⟨k', hinv⟩ := runChan_inv hv hem hedge segs [] c [] 0 c' tr h0 (by simpa using hrun)
+  obtain ⟨k', hinv⟩ := runChan_inv hv hem hedge segs n [] c [] 0 c' tr h0 (by simpa using hrun)
   rw [List.nil_append, List.nil_append] at hinv
   intro T hT
   exact hinv.sound hl ha T hT
 
 /-- edge-only: **records of one epoch never overlap** (successive triggers ≥ `nsamp` apart) -/
-theorem C02_edge_only_no_overlap {c c' : Chan} {ts : TS} {npre nsamp f0 per : Int} {sg : Bool} {zt : ZT}
+theorem C02_edge_only_no_overlap {c c' : Chan} {ts : TS} {npre nsamp f0 : Int} {tp : Nat → Int × Int} {n : Nat} {sg : Bool} {zt : ZT}
     (hv : 3 ≤ npre ∧ npre < nsamp) (hem : ts.edgeMulti = false) (hedge : ts.edge = true)
     (hl : ts.level = false) (ha : ts.auto = false)
     (hfresh : Fresh c ts npre nsamp f0) (segs : List (List Nat)) {tr : List Int}
-    (hrun : runChan zt per sg c f0 segs = some (c', tr)) :
+    (hrun : runChan zt tp sg n c f0 segs = some (c', tr)) :
     tr.Pairwise (fun a b => a + nsamp ≤ b) := by
   have h0 := fresh_inv sg hv hfresh
-  obtain ⟨k', hinv⟩ := runChan_inv hv hem hedge segs [] c [] 0 c' tr h0 (by simpa using hrun)
+  obtain ⟨k', hinv⟩ := runChan_inv hv hem hedge segs n [] c [] 0 c' tr h0 (by simpa using hrun)
   rw [List.nil_append, List.nil_append] at hinv
   exact hinv.spaced hl ha
 
@@ -106,18 +106,18 @@ theorem reconfigured_inv {c : Chan} {ts : TS} {npre nsamp f0 : Int} (sg : Bool) 
 
 /-- **No pulse lost (edge), after a reconfiguration at any point of the stream**: samples with
 `npre` samples of history since the request are covered by the triggers emitted since. -/
-theorem C02_edge_complete_after_reconfigure {c c' : Chan} {ts : TS} {npre nsamp f0 per : Int} {sg : Bool}
+theorem C02_edge_complete_after_reconfigure {c c' : Chan} {ts : TS} {npre nsamp f0 : Int} {tp : Nat → Int × Int} {n : Nat} {sg : Bool}
     {zt : ZT} {G : List Nat} {k : Nat}
     (hv : 3 ≤ npre ∧ npre < nsamp) (hem : ts.edgeMulti = false) (hedge : ts.edge = true)
     (hk : k ≤ G.length) (hbuf : c.buf = G.drop k) (hts : c.ts = ts) (hnpre : c.npre = npre)
     (hnsamp : c.nsamp = nsamp) (hsync : c.emt.nsamp = nsamp) (hsg : c.signed = sg)
     (hlast : c.lastTrig + nsamp ≤ f0)
     (segs : List (List Nat)) {tr : List Int}
-    (hrun : runChan zt per sg c (f0 + G.length) segs = some (c', tr)) :
+    (hrun : runChan zt tp sg n c (f0 + G.length) segs = some (c', tr)) :
     ∀ p : Int, (G.length : Int) + npre ≤ p → p + (nsamp - npre) < ((G ++ segs.flatten).length : Int) →
       edgeAtG (cfgChan ts sg) (G ++ segs.flatten) p = true → Cov nsamp f0 tr p := by
   have h0 := reconfigured_inv sg hk hbuf hts hnpre hnsamp hsync hsg hlast hv
-  obtain ⟨k', hinv⟩ := runChan_inv hv hem hedge segs G c [] k c' tr h0 hrun
+  obtain ⟨k', hinv⟩ := runChan_inv hv hem hedge segs n G c [] k c' tr h0 hrun
   intro p h1 h2 h3
   have := hinv.covered p h1 (by omega) h3
   simpa using this
@@ -167,14 +167,14 @@ theorem fresh_level_inv {c : Chan} {ts : TS} {npre nsamp f0 : Int} (sg : Bool) (
 criterion (with `npre` samples of history and a complete post-trigger) is a trigger or lies within one
 record length before or after an emitted trigger — for all streams, all block partitions, level alone
 or combined with edge and auto triggers. -/
-theorem C02_level_complete {c c' : Chan} {ts : TS} {npre nsamp f0 per : Int} {sg : Bool} {zt : ZT}
+theorem C02_level_complete {c c' : Chan} {ts : TS} {npre nsamp f0 : Int} {tp : Nat → Int × Int} {n : Nat} {sg : Bool} {zt : ZT}
     (hv : 3 ≤ npre ∧ npre < nsamp) (hem : ts.edgeMulti = false) (hlevel : ts.level = true)
     (hfresh : Fresh c ts npre nsamp f0) (segs : List (List Nat)) {tr : List Int}
-    (hrun : runChan zt per sg c f0 segs = some (c', tr)) :
+    (hrun : runChan zt tp sg n c f0 segs = some (c', tr)) :
     ∀ p : Int, npre ≤ p → p + (nsamp - npre) < (segs.flatten.length : Int) →
       levelAtG (cfgChan ts sg) segs.flatten p = true → Near nsamp f0 tr p := by
   have h0 := fresh_level_inv sg hv hfresh
-  obtain ⟨k', hinv⟩ := runChan_level_inv hv hem hlevel segs [] c [] 0 c' tr h0 (by simpa using hrun)
+  obtain ⟨k', hinv⟩ := runChan_level_inv hv hem hlevel segs n [] c [] 0 c' tr h0 (by simpa using hrun)
   rw [List.nil_append, List.nil_append] at hinv
   intro p h1 h2 h3
   exact hinv.covered p (by simpa using h1) (by omega) h3
@@ -191,14 +191,14 @@ theorem fresh_auto_inv {c : Chan} {ts : TS} {npre nsamp f0 : Int} (sg : Bool)
 trigger on, every window of `delay + nsamp` consecutive frames that ends at or before the newest
 trigger contains a trigger (`delay` = the auto delay, or one record if that is longer) — for all
 streams, all block partitions, auto alone or combined with edge and level triggers. -/
-theorem C02_auto_dense {c c' : Chan} {ts : TS} {npre nsamp f0 per : Int} {sg : Bool} {zt : ZT}
+theorem C02_auto_dense {c c' : Chan} {ts : TS} {npre nsamp f0 : Int} {tp : Nat → Int × Int} {n : Nat} {sg : Bool} {zt : ZT}
     (hv : 3 ≤ npre ∧ npre < nsamp) (hem : ts.edgeMulti = false) (hauto : ts.auto = true) (hveto : ts.autoVeto = 0)
     (hfresh : Fresh c ts npre nsamp f0) (segs : List (List Nat)) {tr : List Int}
-    (hrun : runChan zt per sg c f0 segs = some (c', tr)) :
+    (hrun : runChan zt tp sg n c f0 segs = some (c', tr)) :
     (∀ T ∈ tr, T ≤ c'.lastTrig) ∧ (tr ≠ [] → c'.lastTrig ∈ tr) ∧
     ∀ y, y ≤ c'.lastTrig → (∃ T ∈ tr, T ≤ y) → ∃ T ∈ tr, y - (autoD ts nsamp + nsamp) < T ∧ T ≤ y := by
   have h0 := fresh_auto_inv sg hfresh
-  obtain ⟨k', hinv⟩ := runChan_auto_inv hv hem hauto hveto segs [] c [] 0 c' tr h0 (by simpa using hrun)
+  obtain ⟨k', hinv⟩ := runChan_auto_inv hv hem hauto hveto segs n [] c [] 0 c' tr h0 (by simpa using hrun)
   rw [List.nil_append, List.nil_append] at hinv
   exact ⟨hinv.newest, hinv.last, hinv.dense⟩
 
@@ -206,30 +206,30 @@ theorem C02_auto_dense {c c' : Chan} {ts : TS} {npre nsamp f0 per : Int} {sg : B
 one record, if longer) plus one record** — the emitted trigger frames are ascending and any two
 neighbours `a, b` of the whole run's trigger sequence satisfy `b − a ≤ delay + nsamp`; for all streams,
 all block partitions (any lengths, empty blocks included), auto alone or combined with edge and level. -/
-theorem C02_auto_gap {c c' : Chan} {ts : TS} {npre nsamp f0 per : Int} {sg : Bool} {zt : ZT}
+theorem C02_auto_gap {c c' : Chan} {ts : TS} {npre nsamp f0 : Int} {tp : Nat → Int × Int} {n : Nat} {sg : Bool} {zt : ZT}
     (hv : 3 ≤ npre ∧ npre < nsamp) (hem : ts.edgeMulti = false) (hauto : ts.auto = true) (hveto : ts.autoVeto = 0)
     (hfresh : Fresh c ts npre nsamp f0) (segs : List (List Nat)) {tr : List Int}
-    (hrun : runChan zt per sg c f0 segs = some (c', tr)) :
+    (hrun : runChan zt tp sg n c f0 segs = some (c', tr)) :
     ∀ a b, [a, b] <:+: tr → a ≤ b ∧ b - a ≤ autoD ts nsamp + nsamp := by
   have h0 := fresh_auto_inv sg hfresh
-  obtain ⟨k', hinv⟩ := runChan_auto_inv hv hem hauto hveto segs [] c [] 0 c' tr h0 (by simpa using hrun)
+  obtain ⟨k', hinv⟩ := runChan_auto_inv hv hem hauto hveto segs n [] c [] 0 c' tr h0 (by simpa using hrun)
   rw [List.nil_append, List.nil_append] at hinv
   intro a b hab
   exact gap_of_dense hinv.sorted hinv.newest hinv.dense hab
 
 /-- the same **after a reconfiguration at any point of the stream** (the channel as
 `configureTrigger` leaves it — `configureTrigger_epoch` — with whatever the buffer retains) -/
-theorem C02_auto_gap_after_reconfigure {c c' : Chan} {ts : TS} {npre nsamp f0 per : Int} {sg : Bool}
+theorem C02_auto_gap_after_reconfigure {c c' : Chan} {ts : TS} {npre nsamp f0 : Int} {tp : Nat → Int × Int} {n : Nat} {sg : Bool}
     {zt : ZT} {G : List Nat} {k : Nat}
     (hv : 3 ≤ npre ∧ npre < nsamp) (hem : ts.edgeMulti = false) (hauto : ts.auto = true) (hveto : ts.autoVeto = 0)
     (hk : k ≤ G.length) (hbuf : c.buf = G.drop k) (hts : c.ts = ts) (hnpre : c.npre = npre)
     (hnsamp : c.nsamp = nsamp) (hsync : c.emt.nsamp = nsamp) (hsg : c.signed = sg)
     (segs : List (List Nat)) {tr : List Int}
-    (hrun : runChan zt per sg c (f0 + G.length) segs = some (c', tr)) :
+    (hrun : runChan zt tp sg n c (f0 + G.length) segs = some (c', tr)) :
     ∀ a b, [a, b] <:+: tr → a ≤ b ∧ b - a ≤ autoD ts nsamp + nsamp := by
   have h0 : AutoInv ts npre nsamp sg G f0 c [] k :=
     ⟨hk, hbuf, ⟨hts, hnpre, hnsamp, hsync, Or.inl hsg⟩, by simp, by simp, by simp, by simp, by simp, by simp⟩
-  obtain ⟨k', hinv⟩ := runChan_auto_inv hv hem hauto hveto segs G c [] k c' tr h0 hrun
+  obtain ⟨k', hinv⟩ := runChan_auto_inv hv hem hauto hveto segs n G c [] k c' tr h0 hrun
   rw [List.nil_append] at hinv
   intro a b hab
   exact gap_of_dense hinv.sorted hinv.newest hinv.dense hab
